@@ -20,6 +20,7 @@ RULE = ("case = (seekable format, file of 1-12 frames, optional fixed atom_indic
         "followed by a later read/tell/relative seek; distinct = different canonical JSON")
 ENUM_SCOPE = ("all single-handle operation sequences of length <= L over a 17-operation alphabet on a 5-frame file for each of the "
               "10 seekable formats (quick L=3, thorough L=4); sequences entering the region of an open finding are left out")
+RULE += ("; widened: files of 513 / 600 frames, TRR files with velocity / force blocks, DCD files with fixed atoms (half, all but two, one), atom_indices in the caller's order (not ascending) - and the fresh-handle read with atom_indices must equal those columns of the plain read")
 QUICK = {"examples": 150, "shards": 12, "budget_s": 100}
 THOROUGH = {"examples": 3000, "shards": 16, "budget_s": 1500}
 ASSUMPTIONS = ["reference frames come from one read() on a fresh handle of the same file (C01/C02 cover its correctness)",
